@@ -579,7 +579,11 @@ func newVFixture(in VIn, scheme signature.SigningScheme, vc vcase) *vfixture {
 		}
 	}
 	if in.Crit != "none" && in.Crit != "" {
-		fx.extAttrs = append(fx.extAttrs, signature.Attribute{Key: critAttrKeys[vc.sigMut%len(critAttrKeys)], Critical: true, Value: "must-understand"})
+		var key any = critAttrKeys[vc.sigMut%len(critAttrKeys)]
+		if in.Crit == "unprocessed" && vc.format == "cose" && vc.sigMut%(len(critAttrKeys)+1) == len(critAttrKeys) {
+			key = int64(-70001) // COSE header labels may be integers: a critical one that nothing processes
+		}
+		fx.extAttrs = append(fx.extAttrs, signature.Attribute{Key: key, Critical: true, Value: "must-understand"})
 	}
 	return fx
 }
